@@ -111,7 +111,29 @@ def ry_cylinder(L, T, ads, mat, kmax=None):
     return math.exp(c.Avogadro / (c.gas_constant * T) * num / den)
 
 
+def ry_sphere(L, T, ads, mat):
+    """the Rege-Yang equation for a spherical pore as the docstring of psd_horvath_kawazoe_ry gives it: layer i interacts with the
+    n_(i-1) molecules of the layer outside it (n_0: the wall), a and b as for the cylinder, the average weighted by n_1..n_M"""
+    A_gg, A_gh, d_g, d_h, d0, n_g, n_h = _consts(ads, mat)
+
+    def bracket(a):
+        b = 1 - a
+        return a ** 12 / (10 * b) * ((1 - b) ** -10 - (1 + b) ** -10) - a ** 6 / (4 * b) * ((1 - b) ** -4 - (1 + b) ** -4)
+    M = _layers(L, d_h, d_g)
+    n = [4 * math.pi * (L * 1e-9) ** 2 * n_h] + [4 * math.pi * ((L - d0 - (i - 1) * d_g) * 1e-9) ** 2 * n_g for i in range(1, M + 1)]
+    num = den = 0.0
+    for i in range(1, M + 1):
+        if i == 1:
+            e_i = 2 * n[0] * A_gh / (4 * (d0 * 1e-9) ** 6) * bracket(d0 / L)
+        else:
+            e_i = 2 * n[i - 1] * A_gg / (4 * (d_g * 1e-9) ** 6) * bracket(d_g / (L - d0 - (i - 2) * d_g))
+        num += n[i] * e_i
+        den += n[i]
+    return math.exp(c.Avogadro / (c.gas_constant * T) * num / den)
+
+
 TRANSCRIBED = {
+    ('RY', 'sphere'): (ry_sphere, 3e-3, 'radius', 1e-60),  # (the spherical potential is deep: nanometre pores fill at 1e-40 .. 1e-16 p/p0)
     ('HK', 'cylinder'): (hk_cylinder, 3e-3, 'radius'), ('RY', 'cylinder'): (ry_cylinder, 3e-3, 'radius'), ('RY', 'slit'): (ry_slit, 2e-3, 'width'),
 }
 
@@ -134,7 +156,7 @@ def transcribed_cases(thorough=False):
     for matname in (['Carbon(HK)', 'AlSiOxideIon'] if thorough else ['Carbon(HK)']):
         mat = get_hk_model(matname)
         for T in ((77.355, 150.0) if thorough else (77.355,)):
-            for (model, geom), (spec, tol, kind) in TRANSCRIBED.items():
+            for (model, geom), (spec, tol, kind, *pmin) in TRANSCRIBED.items():
                 Ls = (Ws + mat['molecular_diameter']) / 2 if kind == 'radius' else Ws + mat['molecular_diameter']
                 p = numpy.array([spec(L, T, ADS, mat) for L in Ls])
                 name = f"documented_equation_round_trip|{model}|{geom}|{matname}|T={T}"
@@ -153,7 +175,7 @@ def transcribed_cases(thorough=False):
                     dense_p = numpy.array([_safe(spec, L, T, mat) for L in dense_L])
                 unique = numpy.array([numpy.sum(numpy.diff(numpy.sign(dense_p[numpy.isfinite(dense_p)] - pv)) != 0) <= 1 for pv in p])
                 p, Ws_ = p[unique], Ws_[unique]
-                keep = (p > 1e-14) & (p < 0.95)
+                keep = (p > (pmin[0] if pmin else 1e-14)) & (p < 0.95)
                 order = numpy.argsort(p[keep])
                 pk, Wk = p[keep][order], Ws_[keep][order]
                 if len(pk) < 4:
